@@ -169,7 +169,11 @@ def main():
     elif a[0] == "runall":
         for sid in sorted(os.listdir(SEEDED)):
             if os.path.exists(os.path.join(SEEDED, sid, "meta.json")):
-                run(sid, [], "quick")
+                try:
+                    run(sid, [], "quick")
+                except SystemExit as e:
+                    print(sid, "NOT RUN:", e)
+                    sh("git -C /repo checkout -- .")
 
 
 if __name__ == "__main__":
